@@ -73,6 +73,10 @@ PROBES = {
     "free_enum_name": q([], "lambda e: e.Jets('A').Where(lambda j: j.color() == xAOD.Jet.Color.Red).Count()"),   # must raise: enum not declared
     "undeclared_function": q([], "lambda e: e.Jets('A').Select(lambda j: twice(j.pt()))"),       # must raise
     "undeclared_collection": q([], "lambda e: e.ForkJets('A').Count()"),                          # must raise
+    # a class the OTHER backends pre-declare methods for, reached through a collection this query declares: whatever CMS executors
+    # were created or used before, the ATLAS translation knows nothing about reco::Track::hitPattern (must raise)
+    "foreign_default_class": q([dict(COLL, name="Trks", container_type="my::TrkContainer", element_type="reco::Track")],
+                               "lambda e: e.Trks('x').Select(lambda t: t.hitPattern().n())"),
     "own_job_script": q([{"metadata_type": "add_job_script", "name": "mine", "script": ["my_option = 2"], "depends_on": []}], "lambda e: e.Jets('A').Count()"),
     "own_declarations": q([dict(MTI, return_type="float"), dict(INJECT, body_includes=["mine.h"], private_members=[], link_libraries=[])],
                           "lambda e: e.Jets('A').Select(lambda j: j.pt())"),
@@ -145,6 +149,10 @@ def run_case(case):
     trace = []
     # probes of another backend: the executor of that backend is created BEFORE the history (of ATLAS operations) runs
     early = {b: make_executor(b) for b in ("cms_aod", "cms_miniaod")} if probe in XB_PROBES and probe_mode == "early" else {}
+    if probe_mode == "ctor":
+        # executors of the other backends are merely CREATED before the history / the probe run
+        _unused = [make_executor(b) for b in ("cms_aod", "cms_miniaod")]
+        probe_mode = "new"
 
     def one(src, mode, expect=None, apply_only=False, backend="atlas"):
         if mode == "early":
@@ -335,6 +343,12 @@ def main():
                     for pm in modes:
                         cases.append(([(o, om)], p, pm, False))
             cases.append(([(f"ok_{short}_muons", "shared"), (f"ok_{short}_muons", "shared")], p, "shared", False))
+    for o in ("ok_aod_muons", "fail_aod_muons", "apply_aod_muons", "ok_mini_muons"):
+        for om in modes:
+            cases.append(([(o, om)], "foreign_default_class", "new", False))
+            cases.append(([(o, om), ("ok_plain", "new")], "foreign_default_class", "shared", False))
+    cases.append(([("ok_plain", "new")], "foreign_default_class", "ctor", False))
+    cases.append(([("ok_plain", "new")], "typed_method", "ctor", False))
     state_cases = [(h, None, None, True) for h in [[]] + hist1]
     t0 = time.time()
     results = fresh_map(cases + state_cases, a.jobs)
